@@ -620,8 +620,14 @@ static void split_lines
       len -= len1;
       if (len > len2) len = len2;
 
-      strncpy( line2, str+len1, len );
-      for ( i = len ; i < len2 ; i++ ) line2[i] = ' ';
+/*
+ * a string with no second line (the unit) is only truncated
+ */
+      if (line2 != NULL)
+         {
+         strncpy( line2, str+len1, len );
+         for ( i = len ; i < len2 ; i++ ) line2[i] = ' ';
+         }
       } 
    else 
       {
